@@ -86,7 +86,7 @@ def declare(reg, eng):
                  types={"self": "Job", "dependency": "Dependency", "oldstatus": "DependencyStatus", "status": "DependencyStatus"},
                  requires=["isint(self.unsatisfied)", "status != oldstatus", "isref(self._readyEvent)"],
                  ensures=[
-                     ("C04", "self.unsatisfied == old(self.unsatisfied) - (ite(status == DependencyStatus.OK, 1, 0) - ite(oldstatus == DependencyStatus.OK, 1, 0))"),
+                     (("C04", "C07"), "self.unsatisfied == old(self.unsatisfied) - (ite(status == DependencyStatus.OK, 1, 0) - ite(oldstatus == DependencyStatus.OK, 1, 0))"),
                      ("C04", "implies(self.state != old(self.state) and self.state == JobState.READY, self.unsatisfied == 0)"),
                      ("C06", "implies(old(self.state).finished(), self.state == old(self.state))"),
                      ("C06", "self.state == old(self.state) or self.state == JobState.READY or self.state == JobState.ERROR"),
